@@ -73,7 +73,11 @@ func minLenSites(c *Ctx, fn *ssa.Function) (map[*ssa.Return]int, map[int]bool, b
 			sites[ret] = l
 		}
 	}}
-	eng := bounds.New(c.Prog, bounds.Config{K: 64, MaxDepth: 7, RetCap: 8}, hooks)
+	rc := 16 // outcomes of helper decoders stay apart: a merge keeps only bounds both sides state literally, and 'len >= 12' is often implied, not stated
+	if ks := os.Getenv("RTPCHECK_RETCAP"); ks != "" {
+		fmt.Sscan(ks, &rc)
+	}
+	eng := bounds.New(c.Prog, bounds.Config{K: 64, MaxDepth: 7, RetCap: rc}, hooks)
 	eng.AnalyzeEntry(fn)
 	return sites, all, true
 }
